@@ -683,7 +683,7 @@ func TestVerifC19DeviceReplay(t *testing.T) {
 		dead := false
 		sawVF, sawMultiType, sawMultiDev, sawShareDev, sawDup, sawTerminated, sawPodFinished, sawSelfEvent, sawLate, sawResv, sawID := false, false, false, false, false, false, false, false, false, false, false
 		maxLive, checks := 0, 0
-		sawDeleted, sawEarly := false, false
+		sawDeleted, sawEarly, sawOutage, sawOutageOfHeld, sawRestartInOutageOfHeld := false, false, false, false, false
 
 		bound := func() []types.UID {
 			var out []types.UID
@@ -703,45 +703,23 @@ func TestVerifC19DeviceReplay(t *testing.T) {
 			return out
 		}
 
-		crash := func(t *rapid.T) {
-			checks++
-			uids := bound()
-			evs, extras, late := c19GenEvents(t, uids)
-			fresh := c19Replay(device, persisted, evs)
-			if late {
-				sawLate = true
-			}
-			for _, ev := range evs {
-				if ev.Kind == "add-unbound" {
-					sawEarly = true
+		// what the node agent currently reports: the inventory without the devices that dropped out
+		missing := map[int]bool{}
+		currentDevice := func() *schedulingv1alpha1.Device {
+			d := device.DeepCopy()
+			d.Spec.Devices = nil
+			for i, info := range device.Spec.Devices {
+				if !missing[i] {
+					d.Spec.Devices = append(d.Spec.Devices, *info.DeepCopy())
 				}
 			}
-			if extras > 0 {
-				sawDup = true
-			}
-			holders := 0
-			perDev := map[string]int{}
-			for _, u := range running() {
-				if len(model[u]) > 0 {
-					holders++
-				}
-				for dt, l := range model[u] {
-					for _, a := range l {
-						perDev[fmt.Sprintf("%s#%d", dt, a.Minor)]++
-					}
-				}
-			}
-			for _, n := range perDev {
-				if n >= 2 {
-					sawShareDev = true
-				}
-			}
-			if holders > maxLive {
-				maxLive = holders
-			}
+			return d
+		}
+		// live vs fresh vs the harness model; `where` names the crash point
+		judge := func(t *rapid.T, where string, fresh *nodeDeviceCache, evs []c19Event) {
 			// the harness' own statement of what is taken: what Reserve handed to every object that is still active
 			ref := newNodeDeviceCache()
-			ref.onDeviceAdd(device.DeepCopy())
+			ref.onDeviceAdd(currentDevice())
 			for _, u := range running() {
 				o := persisted[u]
 				p := o.Pod
@@ -778,9 +756,65 @@ func TestVerifC19DeviceReplay(t *testing.T) {
 			} else {
 				msg = "(live and fresh agree) " + msg
 			}
-			if c.Violation(t, full, "%s\ninventory: %s\nhistory: %s\nreplay events: %v\npersisted: %s", msg, c19DeviceStr(device), strings.Join(hist, "\n  "), evs, c19Persisted(persisted)) {
+			if c.Violation(t, full, "%s: %s\ninventory: %s (currently reported: %s)\nhistory: %s\nreplay events: %v\npersisted: %s", where, msg, c19DeviceStr(device), c19DeviceStr(currentDevice()), strings.Join(hist, "\n  "), evs, c19Persisted(persisted)) {
 				dead = true
 			}
+		}
+		rebuild := func(t *rapid.T) (*nodeDeviceCache, []c19Event) {
+			checks++
+			uids := bound()
+			evs, extras, late := c19GenEvents(t, uids)
+			fresh := c19Replay(currentDevice(), persisted, evs)
+			if late {
+				sawLate = true
+			}
+			for _, ev := range evs {
+				if ev.Kind == "add-unbound" {
+					sawEarly = true
+				}
+			}
+			if extras > 0 {
+				sawDup = true
+			}
+			return fresh, evs
+		}
+		crash := func(t *rapid.T) {
+			fresh, evs := rebuild(t)
+			holders := 0
+			perDev := map[string]int{}
+			for _, u := range running() {
+				if len(model[u]) > 0 {
+					holders++
+				}
+				for dt, l := range model[u] {
+					for _, a := range l {
+						perDev[fmt.Sprintf("%s#%d", dt, a.Minor)]++
+					}
+				}
+			}
+			for _, n := range perDev {
+				if n >= 2 {
+					sawShareDev = true
+				}
+			}
+			if holders > maxLive {
+				maxLive = holders
+			}
+			judge(t, "crash point", fresh, evs)
+		}
+		setLister := func(d *schedulingv1alpha1.Device) {
+			_ = plg.handle.(*c19Handle).factory.Scheduling().V1alpha1().Devices().Informer().GetIndexer().Update(d.DeepCopy())
+		}
+		held := func(i int) bool {
+			info := device.Spec.Devices[i]
+			for _, u := range running() {
+				for _, a := range model[u][info.Type] {
+					if a.Minor == *info.Minor {
+						return true
+					}
+				}
+			}
+			return false
 		}
 
 		schedule := func(t *rapid.T) {
@@ -883,6 +917,68 @@ func TestVerifC19DeviceReplay(t *testing.T) {
 			"schedule":  schedule, // three names: scheduling is three times as likely as each other action
 			"schedule2": schedule,
 			"schedule3": schedule,
+			"schedule4": schedule,
+			"schedule5": schedule,
+			// A device drops out of the node's Device object (fell off the bus, not enumerated until it is reset): the
+			// node agent reports the inventory without it. Pods that hold it keep running.
+			"deviceOutage": func(t *rapid.T) {
+				if dead {
+					return
+				}
+				var present []int
+				for i := range device.Spec.Devices {
+					if !missing[i] {
+						present = append(present, i)
+					}
+				}
+				if len(present) == 0 || len(present) <= len(device.Spec.Devices)-2 || rapid.Bool().Draw(t, "noOutageNow") {
+					t.Skip("no (further) outage now") // at most two devices are out at a time, so that allocation keeps going
+				}
+				i := rapid.SampledFrom(present).Draw(t, "device")
+				for _, j := range present { // prefer a device that somebody holds
+					if held(j) && rapid.Bool().Draw(t, "preferHeld") {
+						i = j
+						break
+					}
+				}
+				old := currentDevice()
+				missing[i] = true
+				dc.onDeviceUpdate(old, currentDevice())
+				setLister(currentDevice())
+				sawOutage = true
+				if held(i) {
+					sawOutageOfHeld = true
+				}
+				hist = append(hist, fmt.Sprintf("Device update: %s#%d is no longer reported", device.Spec.Devices[i].Type, *device.Spec.Devices[i].Minor))
+			},
+			// The device is reported again. Checked as a restart DURING the outage: the restarted scheduler rebuilds from
+			// the reduced Device object and the persisted pods, then both schedulers get the Device update.
+			"deviceBack": func(t *rapid.T) {
+				if dead {
+					return
+				}
+				var gone []int
+				for i := range device.Spec.Devices {
+					if missing[i] {
+						gone = append(gone, i)
+					}
+				}
+				if len(gone) == 0 {
+					t.Skip("nothing is missing")
+				}
+				i := rapid.SampledFrom(gone).Draw(t, "device")
+				fresh, evs := rebuild(t)
+				old := currentDevice()
+				delete(missing, i)
+				dc.onDeviceUpdate(old, currentDevice())
+				fresh.onDeviceUpdate(old, currentDevice())
+				setLister(currentDevice())
+				if held(i) {
+					sawRestartInOutageOfHeld = true
+				}
+				hist = append(hist, fmt.Sprintf("Device update: %s#%d is reported again", device.Spec.Devices[i].Type, *device.Spec.Devices[i].Minor))
+				judge(t, "restart while the device was not reported, then the Device update on both", fresh, evs)
+			},
 			"delete": func(t *rapid.T) {
 				if dead {
 					return
@@ -987,6 +1083,9 @@ func TestVerifC19DeviceReplay(t *testing.T) {
 		c.ClassIf(sawPodFinished, "pod-finished(delivered-as-delete)")
 		c.ClassIf(sawDeleted, "object-deleted")
 		c.ClassIf(sawEarly, "replay:add-unbound-then-bind-update")
+		c.ClassIf(sawOutage, "device-dropped-from-Device-object")
+		c.ClassIf(sawOutageOfHeld, "dropped-device-is-held")
+		c.ClassIf(sawRestartInOutageOfHeld, "restart-during-outage-of-held-device-then-reported-again")
 		c.ClassIf(sawSelfEvent, "live-saw-own-bind-event")
 		c.ClassIf(sawLate, "pod-event-before-device-report")
 		c.ClassIf(sawResv, "reservation-object-persisted")
